@@ -1299,7 +1299,7 @@ impl KeyFlags {
             });
         }
         if remaining == 1 {
-            let known = KnownKeyFlags::from_bits(buf.read_u8()? as u16);
+            let known = KnownKeyFlags(buf.read_u8()? as u16);
             return Ok(Self {
                 known,
                 rest: None,
@@ -1307,14 +1307,14 @@ impl KeyFlags {
             });
         }
         if remaining == 2 {
-            let known = KnownKeyFlags::from_bits(buf.read_le_u16()?);
+            let known = KnownKeyFlags(buf.read_le_u16()?);
             return Ok(Self {
                 known,
                 rest: None,
                 original_len: remaining,
             });
         }
-        let known = KnownKeyFlags::from_bits(buf.read_le_u16()?);
+        let known = KnownKeyFlags(buf.read_le_u16()?);
         let rest = Some(buf.rest());
         Ok(Self {
             known,
